@@ -288,6 +288,7 @@ class Sym:
         self.state: Dict[str, Poly] = {}      # canonical slot -> current value
         self.max_depth = max_depth
         self.bound: Dict[str, str] = {}       # name -> canonical string override (inlining)
+        self.suffix: Optional[Callable[[str], str]] = None   # version suffix for untracked state reads
         self.scope: List[Set[str]] = []       # comprehension/lambda bound names
 
     # ---- helpers
@@ -363,7 +364,7 @@ class Sym:
             k = self._subscript_key(e, at, depth)
             if k in self.state:
                 return self.state[k]
-            return Poly.atom(k)
+            return Poly.atom(k + (self.suffix(k) if self.suffix and "@v" not in k else ""))
         if isinstance(e, (ast.Compare, ast.BoolOp)):
             return Poly.atom(cmp_key(self.cmp(e, at, depth + 1)))
         return Poly.atom(self._generic(e, at, depth))
@@ -443,7 +444,7 @@ class Sym:
             r = self.inliner(self, e, base, at, depth)
             if r is not None:
                 return r
-        return Poly.atom(k)
+        return Poly.atom(k + (self.suffix(k) if self.suffix else ""))
 
     def _subscript_key(self, e: ast.Subscript, at, depth) -> str:
         base = self.canon(e.value, at, depth + 1)
